@@ -12,7 +12,7 @@ def run(res):
 
 
 def _run(res, work):
-    ok, tlog = common.regen_tables()
+    ok, tlog = common.regen_tables("C01")
     lean = common.lean_obligations("C01", res.tier)
     broken = []
     if not ok:
